@@ -9,7 +9,7 @@ use std::cell::{RefCell, RefMut};
 use std::mem;
 use std::path::PathBuf;
 use std::sync::Arc;
-use std::sync::atomic::{AtomicU32, Ordering};
+use std::sync::atomic::{AtomicBool, AtomicU32, Ordering};
 
 // ---------------- environment (D4) ----------------
 pub type BucketId = u16;
@@ -41,6 +41,8 @@ impl BucketSegmentWriter {
     pub fn sync(&mut self) -> Result<u64, WriteError> { self.flushed = self.write_offset; self.fsyncs += 1; Ok(self.write_offset) }
     pub fn flushed_offset(&self) -> FlushedOffset { FlushedOffset(self.flushed) }
     pub fn write_offset(&self) -> u64 { self.write_offset }
+    /// seglog Writer::set_len (units/U02, wr_set_len_keeps_cursor_aligned): beyond the end a no-op, otherwise both offsets lowered
+    pub fn set_len(&mut self, o: u64) -> Result<(), WriteError> { if o < self.write_offset { self.write_offset = o; if self.flushed > o { self.flushed = o; } } Ok(()) }
 }
 pub struct BucketSegmentReader;
 impl BucketSegmentReader { pub fn open(_p: PathBuf, _f: Option<FlushedOffset>) -> Result<Self, WriteError> { Ok(BucketSegmentReader) } }
@@ -61,21 +63,67 @@ impl ReaderThreadPool { pub fn add_bucket_segment(&self, _id: BucketSegmentId, _
 /// tokio::sync::watch as a cell. A dropped Sender records its final value: receivers still subscribed to it (appenders of the
 /// sealed segment) observe exactly that value (tokio's wait_for checks the current value before reporting closure).
 pub static mut DROPPED_FINAL: Option<u64> = None;
+pub static mut NEXT_CHANNEL: u32 = 1;
 pub mod watch {
-    pub struct Sender<T: Copy + Into<u64>> { pub value: T }
-    pub struct Receiver<T> { pub initial: T }
-    pub fn channel<T: Copy + Into<u64>>(v: T) -> (Sender<T>, Receiver<T>) { (Sender { value: v }, Receiver { initial: v }) }
-    impl<T: Copy + Into<u64>> Sender<T> { pub fn send_replace(&self, v: T) -> T { unsafe { let p = &self.value as *const T as *mut T; std::ptr::replace(p, v) } } }
+    /// `chan` identifies the channel: a receiver observes the values of exactly the channel it was subscribed to
+    pub struct Sender<T: Copy + Into<u64>> { pub value: T, pub chan: u32 }
+    #[derive(Clone, Copy, Debug)]
+    pub struct Receiver<T> { pub chan: u32, pub _p: core::marker::PhantomData<T> }
+    pub fn channel<T: Copy + Into<u64>>(v: T) -> (Sender<T>, Receiver<T>) {
+        let chan = unsafe { let c = super::NEXT_CHANNEL; super::NEXT_CHANNEL += 1; c };
+        (Sender { value: v, chan }, Receiver { chan, _p: core::marker::PhantomData })
+    }
+    impl<T: Copy + Into<u64>> Sender<T> {
+        pub fn send_replace(&self, v: T) -> T { unsafe { let p = &self.value as *const T as *mut T; std::ptr::replace(p, v) } }
+        pub fn subscribe(&self) -> Receiver<T> { Receiver { chan: self.chan, _p: core::marker::PhantomData } }
+    }
     impl<T: Copy + Into<u64>> Drop for Sender<T> { fn drop(&mut self) { unsafe { super::DROPPED_FINAL = Some(self.value.into()); } } }
 }
 #[derive(Clone, Copy)]
 pub struct Instant;
 impl Instant { pub fn now() -> Instant { Instant } }
 
+// ---- environment of the acknowledgement hand-off slice (tail of Worker::handle_append_events)
+#[derive(Debug)]
+pub struct AppendResult { pub ok: u8 }
+pub struct FullAppendResult { pub append: AppendResult, pub write_offset: u64, pub sync_rx: watch::Receiver<u64> }
+pub struct WriteOperation { pub partition_key: Uuid, pub partition_id: PartitionId, pub transaction_id: Uuid, pub events: u8, pub event_versions: u8, pub expected_partition_sequence: u8, pub unique_streams: usize, pub confirmation_count: u8 }
+pub struct Lsv; impl Lsv { pub fn len(&self) -> usize { 1 } }
+pub struct Batch { pub confirmation_count: u8 }
+/// what the harness needs to know about the run: where handle_write started, how it ended
+pub static mut HW_STARTED_AT: Option<u64> = None;
+pub static mut HW_CALLS: u32 = 0;
+pub static mut REPLIES: u32 = 0;
+pub static mut REPLY: Option<Result<(u64, u32), ()>> = None; // Ok((write_offset, channel)) as handed to the appender
+pub struct ReplyTx;
+impl ReplyTx { pub fn send(self, r: Result<FullAppendResult, WriteError>) -> Result<(), ()> { unsafe { REPLIES += 1; REPLY = Some(match r { Ok(f) => Ok((f.write_offset, f.sync_rx.chan)), Err(_) => Err(()) }); } Ok(()) } }
+
 //@item PendingIndex
 //@item WriterSet
 //@item WriterSet::sync
 //@item WriterSet::rollover
+//@item ack_handoff_slice
+impl WriterSet {
+    /// WriterSet::handle_write behind its contract (as read from the code; NOT verified here): it fails before writing anything,
+    /// or fails after writing some records (their bytes stay in the live segment, nothing else changes), or writes all records,
+    /// queues their index entries, and may sync inline (sync_if_necessary -> the REAL WriterSet::sync above).
+    fn handle_write(&mut self, _req: WriteOperation) -> Result<AppendResult, WriteError> {
+        unsafe { HW_STARTED_AT = Some(self.writer.write_offset); HW_CALLS += 1; }
+        let room = (self.segment_size as u64).saturating_sub(self.writer.write_offset);
+        let written: u64 = kani::any();
+        kani::assume(written <= room);
+        let outcome: u8 = kani::any();
+        if outcome == 0 { return Err(WriteError::Io); }
+        self.writer.write_offset += written;
+        self.bytes_since_sync += written as usize;
+        if outcome == 1 { return Err(WriteError::Io); }
+        kani::assume(written > 0);
+        self.pending_indexes.push(PendingIndex { event_id: Uuid(7), partition_key: Uuid(9), partition_id: 1, partition_sequence: 5, stream_id: StreamId(1), stream_version: 5, offset: unsafe { HW_STARTED_AT.unwrap() } });
+        self.unflushed_events += 1;
+        if outcome == 2 { let _ = self.sync(); }
+        Ok(AppendResult { ok: 1 })
+    }
+}
 
 #[cfg(kani)]
 mod verif {
@@ -99,8 +147,8 @@ mod verif {
             writer: BucketSegmentWriter { write_offset: wo, flushed: fl, fsyncs: 0 },
             index_segment_id: Arc::new(AtomicU32::new(0)),
             indexes: LiveIndexes { inner: RefCell::new(LiveIndexSet { event_index: OpenEventIndex { n: 0 }, partition_index: OpenPartitionIndex { n: 0 }, stream_index: OpenStreamIndex { n: 0 } }) },
-            pending_indexes: pend, sync_tx: watch::Sender { value: sv }, last_synced: Instant, unflushed_events: kani::any(), bytes_since_sync: kani::any(),
-            thread_pool: Arc::new(ThreadPool),
+            pending_indexes: pend, sync_tx: watch::Sender { value: sv, chan: 0 }, last_synced: Instant, unflushed_events: kani::any(), bytes_since_sync: kani::any(),
+            thread_pool: Arc::new(ThreadPool), has_recent_activity: Arc::new(std::sync::atomic::AtomicBool::new(false)),
         }
     }
     fn wsinv(ws: &WriterSet) -> bool { ws.sync_tx.value <= ws.writer.flushed && ws.writer.flushed <= ws.writer.write_offset }
@@ -137,5 +185,43 @@ mod verif {
         assert!(ws.pending_indexes.is_empty(), "the sealed segment's pending entries were published");
         assert!(ws.writer.write_offset == SEGMENT_HEADER_SIZE as u64 && ws.writer.flushed == SEGMENT_HEADER_SIZE as u64, "the live writer is the fresh segment");
         assert!(wsinv(&ws), "after a rollover the published watermark still does not exceed what is fsynced in the (new) live segment: the first append to it must not be acknowledged before its fsync");
+    }
+
+    /// The acknowledgement hand-off (tail of Worker::handle_append_events, lifted verbatim): rollover decision, the write, the
+    /// roll-back of a failed write, the reply. With wsinv (above) P1 gives "released => fsynced": the appender waits on the
+    /// channel of the segment its records went to, for the offset at which they end.
+    #[kani::proof]
+    #[kani::unwind(4)]
+    fn ws_ack_handoff() {
+        let mut ws = any_ws();
+        kani::assume(ws.pending_indexes.len() <= 1 && ws.unflushed_events < 1000 && ws.bytes_since_sync < (1 << 40));
+        let seg: usize = kani::any();
+        kani::assume(seg >= 1 << 10 && seg <= 1 << 30 && ws.writer.write_offset <= seg as u64);
+        ws.segment_size = seg;
+        let write_offset = ws.writer.write_offset;
+        let events_size: usize = kani::any();
+        kani::assume(events_size <= seg && events_size + SEGMENT_HEADER_SIZE <= seg); // the EventsExceedSegmentSize check precedes the slice (units/U19)
+        let old_value = ws.sync_tx.value;
+        let old_chan = ws.sync_tx.chan;
+        unsafe { HW_STARTED_AT = None; HW_CALLS = 0; REPLIES = 0; REPLY = None; NEXT_CHANNEL = 1; }
+        let rolled = write_offset as usize + events_size > seg;
+        kani::cover!(rolled, "reachable: the request rolls the segment over");
+        ack_handoff_slice(&mut ws, write_offset, events_size, ReplyTx, Uuid(1), 1, Uuid(2), 1, 1, 0, Lsv, Batch { confirmation_count: 1 });
+        assert!(unsafe { REPLIES } == 1 && unsafe { HW_CALLS } == 1, "exactly one reply, exactly one write attempt");
+        let started = unsafe { HW_STARTED_AT.unwrap() };
+        assert!(started == if rolled { SEGMENT_HEADER_SIZE as u64 } else { write_offset }, "the write starts at the live segment's write offset (after the rollover, if any)");
+        match unsafe { REPLY.unwrap() } {
+            Ok((wo, chan)) => {
+                kani::cover!(rolled, "reachable: acknowledged append that rolled over");
+                assert!(chan == ws.sync_tx.chan, "P1: the appender waits on the watermark channel of the segment its records were written to");
+                assert!(wo == ws.writer.write_offset && wo > started, "P1: ... for the offset at which its records end");
+            }
+            Err(()) => {
+                kani::cover!(rolled, "reachable: failed write after a rollover");
+                assert!(ws.writer.write_offset == started, "P2: a failed write is rolled back to where it started: no bytes of a rejected transaction stay in the live segment");
+            }
+        }
+        assert!(wsinv(&ws), "P3: the published watermark never exceeds what is fsynced in the live segment");
+        if ws.sync_tx.chan == old_chan && ws.sync_tx.value != old_value { assert!(ws.pending_indexes.is_empty(), "P3: the watermark is only raised together with the publication of the pending index entries (WriterSet::sync)"); }
     }
 }
